@@ -6,3 +6,4 @@ import OsyrisProofs.C14
 #print axioms Osyris.Readers.readAt_aligned
 #print axioms Osyris.Readers.var_loop_reads_columns
 #print axioms Osyris.Readers.expReads_offs
+#print axioms Osyris.Layout.skelOf_partFile
